@@ -30,7 +30,8 @@ def known_devs():
     devs = set()
     for f in C.Findings(PID).open:
         devs |= set(f.get("tags", [])) & DEV_TAGS
-    return devs
+    # trial switch: VERIF_C04_FIXED=tag,tag treats these deviations as repaired (machine follows)
+    return devs - set(os.environ.get("VERIF_C04_FIXED", "").split(","))
 
 
 def write_mc(wd, sub):
@@ -52,6 +53,7 @@ def cfg(source, devs, lemmas=True):
   Sub <- MCSub
   Exps <- MCExps
   KnownDevs = {C.tla_str(devs)}
+  ConvDevs = {C.tla_str(devs)}
   Emit = TRUE
 INIT Init
 NEXT Next
@@ -129,7 +131,9 @@ def replay_conv(job):
             return ("violation", "to_not_inplace", {"expected": "after to() the quantity itself carries the converted value and units", "observed": "it does not", "x": x,
                                                     "clause": "to(unit) converts in place"}, nobs)
         # reverse conversion returns x
-        if ua is not None and rule != "nounit_rad":
+        # ("converting back": only where the spec's rule for the reverse pair is a linear or reciprocal conversion -
+        #  a source the constructor folded to a bare number is not the text it was written with)
+        if ua is not None and rule != "nounit_rad" and rec.get("back") in ("linear", "inverse"):
             from scinumtools.units import Quantity
             try:
                 q = Quantity(A.mag_in(x), ua)
